@@ -766,7 +766,7 @@ func TestC28(t *testing.T) {
 		"a second AcquireLock inside the process that already owns the lock is outside the property's quantifier (it speaks of processes): the model follows POSIX per-process semantics there and such histories are counted under offdiscipline_*, not judged for 'two holders'",
 		"F_GETLK from a non-participating process is trusted as the observation of the current owner")
 
-	var deadline = vr.Deadline(45*time.Second, 9*time.Minute)
+	var deadline = vr.Deadline(4*time.Minute, 24*time.Minute) // safety net below the INDEX timeouts (10m / 30m); an idle machine needs ~10 s / a few minutes
 	raceRepeats := 4
 	if vr.Thorough() {
 		raceRepeats = 24
